@@ -3,7 +3,7 @@ operations, decided on the operation model (abstract interpretation of Process::
 constraint polynomials."""
 import re, collections
 from .mirutil import *
-from .mirsym import Interp, Term, Agg, Ptr, Opaque, Unanalysable, PanicReached
+from .mirsym import Interp, Term, Agg, Ptr, Opaque, Unanalysable, PanicReached, deref
 from .mirsym import Poly, Sup, Term, P
 from . import opmodel, procmodel, docspec
 from .rules_c04 import AirView, unit_multiple, doc_instances
@@ -591,6 +591,112 @@ def r6b_chiplet_rows(ctx, F):
             ctx.violation("chiplet-start|%s" % name, f2.loc(), "Chiplets::%s is the sum of %s, expected %s" % (name, leaves, want))
 
 
+def r8_bitwise_chiplet(ctx, F):
+    """Bitwise::u32and / u32xor are interpreted on operands given as 32 binary variables each (bit-decomposed integer domain):
+    the eight rows they append are substituted into the bitwise chiplet's transition constraints (row i as current, row i+1
+    as next; periodic masks k0, k1 of row i; chiplet selectors of the bitwise section) - every constraint must vanish modulo
+    x^2 = x; the value returned is the AND / XOR of the operands, and the last row's output column holds it."""
+    from .mirsym import BitInt
+    R = opmodel.restricted_air(F)
+    cs, ce = R["ranges"]["chiplets"]
+    res = R["by_opcode"][0]
+    CH = F.const(r"^miden_air::trace::CHIPLETS_OFFSET$")
+    BW = F.const(r"^miden_air::trace::chiplets::BITWISE_TRACE_OFFSET$")
+    nper = F.const(r"^miden_air::constraints::chiplets::hasher::NUM_PERIODIC_COLUMNS$")
+    width = F.const(r"^miden_air::trace::chiplets::bitwise::TRACE_WIDTH$")
+    k0 = F.const(r"^miden_air::constraints::chiplets::bitwise::BITWISE_K0_MASK$")
+    k1 = F.const(r"^miden_air::constraints::chiplets::bitwise::BITWISE_K1_MASK$")
+    RINV = pow(2 ** 64 % P, -1, P)
+    mask = lambda k: [(v if isinstance(v, int) else v.get("val", v)) for v in (k["fields"] if isinstance(k, dict) else k)]
+    k0, k1 = mask(k0), mask(k1)
+    dec = lambda v: v * RINV % P if v > 1 else v
+    k0, k1 = [dec(v) for v in k0], [dec(v) for v in k1]
+    ctx.inst(key="periodic-masks", nontrivial=True)
+    okm = k0 == [1, 0, 0, 0, 0, 0, 0, 0] and k1 == [1, 1, 1, 1, 1, 1, 1, 0]
+    ctx.oblig(okm)
+    if not okm:
+        ctx.violation("bitwise-periodic-masks", "air/src/constraints/chiplets/bitwise/mod.rs", "k0 = %s, k1 = %s; expected a one in the first row of a cycle / a zero in the last" % (k0, k1))
+    chip = res[cs:ce]
+    adt = F.adt(r"^miden_processor::chiplets::bitwise::Bitwise$")
+    n_ok = 0
+    for name, opf in (("u32and", lambda x, y: x * y), ("u32xor", lambda x, y: x + y - (x * y).scale(2))):
+        fn = F.fn(r"^miden_processor::chiplets::bitwise::Bitwise::%s$" % name)
+        ctx.inst(key="Bitwise::" + name, nontrivial=True)
+        rows = []
+        try:
+            for tag in ("", "'"):       # two consecutive operations: the second supplies the next row of the first's last row
+                I = Interp(F)
+                procmodel.install_field(I)
+                regs = {}
+                va, vb = Poly.var("A" + tag), Poly.var("B" + tag)
+                regs["A" + tag] = BitInt([Poly.var("a%d%s" % (i, tag)) for i in range(32)])
+                regs["B" + tag] = BitInt([Poly.var("b%d%s" % (i, tag)) for i in range(32)])
+
+                def as_int(I_, a, f, regs=regs):
+                    x = deref(a[0])
+                    if isinstance(x, Poly):
+                        vs = sorted(x.vars())
+                        if len(vs) == 1 and x == Poly.var(vs[0]) and vs[0] in regs:
+                            return regs[vs[0]]
+                        if x.const_value() is not None:
+                            return x.const_value()
+                    raise Unanalysable("as_int of %r" % (x,))
+                I.overrides.insert(0, (re.compile(r"BaseElement::as_int$"), as_int))
+                trace = Agg([Agg([], "vec") for _ in range(width)], "array")
+                me = Agg([trace], "adt", adt["id"], adt["variants"][0]["name"])
+                out = I.call(fn.id, [Ptr([me], 0), va, vb])
+                if not (isinstance(out, Agg) and out.variant == "Ok"):
+                    raise Unanalysable("%s returns %r" % (name, out))
+                cols = [c.items for c in trace.items]
+                if any(len(c) != 8 for c in cols):
+                    raise Unanalysable("%s appends %s rows per column" % (name, sorted(set(len(c) for c in cols))))
+                rows += [[cols[j][i] for j in range(width)] for i in range(8)]
+                if tag == "":
+                    ret = out.items[0]
+                    want = Poly()
+                    for i in range(32):
+                        want = want + BitInt.reduce(opf(Poly.var("a%d" % i), Poly.var("b%d" % i))).scale(1 << i)
+                    okr = isinstance(ret, Poly) and ret == want
+                    ctx.oblig(okr)
+                    if not okr:
+                        ctx.violation("bitwise-result|%s" % name, fn.loc(), "Bitwise::%s returns %s; the bitwise %s of the operands is %s" % (name, str(ret)[:200], name[3:].upper(), str(want)[:200]))
+        except (Unanalysable, PanicReached) as e:
+            ctx.violation("UNANALYSABLE|Bitwise::%s" % name, fn.loc(), str(e)[:300])
+            continue
+        bad = []
+        n_eval = 0
+        for i in range(8):
+            sub = {"c%d" % CH: 1, "c%d" % (CH + 1): 0, "n%d" % CH: 1, "n%d" % (CH + 1): 0,
+                   "p%d" % nper: k0[i], "p%d" % (nper + 1): k1[i]}
+            for j in range(width):
+                sub["c%d" % (BW + j)] = rows[i][j]
+                sub["n%d" % (BW + j)] = rows[i + 1][j]
+            for ci, poly in enumerate(chip):
+                if not isinstance(poly, Poly):
+                    continue
+                vs = poly.vars()
+                if not any(v in sub for v in vs if re.match(r"^[cn]\d+$", v) and BW <= int(v[1:]) < BW + width):
+                    continue        # a constraint of another chiplet
+                v = BitInt.reduce(poly.subst(sub))
+                if not isinstance(v, Poly) or not v.is_zero():
+                    left = sorted(x for x in v.vars() if re.match(r"^[cnp]\d+$", x)) if isinstance(v, Poly) else []
+                    if left:
+                        continue    # depends on cells of other chiplets' columns: not a bitwise constraint
+                    bad.append((i, cs + ci, str(v)[:160]))
+                n_eval += 1
+        ctx.oblig(not bad)
+        ctx.sample({"operation": "Bitwise::" + name, "row_constraint_pairs_evaluated": n_eval})
+        if n_eval < 8 * 17:
+            ctx.violation("ANCHOR-LOST|bitwise-constraints|%s" % name, fn.loc(), "only %d row/constraint pairs of the bitwise chiplet were evaluated (17 constraints x 8 rows expected)" % n_eval)
+        if bad:
+            i, ci, v = bad[0]
+            ctx.violation("bitwise-row-vs-constraint|%s" % name, fn.loc(),
+                          "row %d of the eight rows Bitwise::%s appends does not satisfy chiplet constraint #%d (of %d violated row/constraint pairs): residual %s" % (i, name, ci, len(bad), v))
+        else:
+            n_ok += 1
+    ctx.floor("bitwise-operations-verified", n_ok, 2)
+
+
 def run(ctx, F):
     ctx.trusted += ["rustc MIR via mirfacts", "mirsym abstract interpreter and the abstract Process model (vlib/procmodel.py)", "docs/src/design as oracle"]
     ctx.assumptions += ["handler values the model treats as fresh (u32 limbs, memory, advice, hasher results) are not substituted: those constraints are counted as undecided",
@@ -602,6 +708,7 @@ def run(ctx, F):
     ctx.run_rule("C03-R4", "helper registers read by an operation's constraints are written by its handler; exactly prefix-100 operations request range checks", r4_helpers, F, M)
     ctx.run_rule("C03-R5", "decoder trace append methods push once per column on every path", r5_decoder_rows, F)
     from . import rules_c12
+    ctx.run_rule("C03-R8", "bitwise chiplet: the eight rows Bitwise::u32and / u32xor append for bit-symbolic operands satisfy every bitwise transition constraint (with the periodic masks of their row), and the returned value is the AND / XOR of the operands", r8_bitwise_chiplet, F)
     ctx.run_rule("C03-R7", "RangeChecker::add_range_checks counts every value once and records all values of a row, also when the row already has lookups (the b_range column of an honest trace must return to 1)", rules_c12.r5_range_conservation, F)
     ctx.run_rule("C03-R6b", "chiplet rows = hasher + bitwise + memory + kernel ROM + one padding row; component starts are the cumulative sums", r6b_chiplet_rows, F)
     ctx.run_rule("C03-R6", "trace length = next_power_of_two(max(range rows, clk, chiplet rows) + NUM_RAND_ROWS), independent of capacity hints", r6_trace_len, F)
